@@ -20,7 +20,7 @@ import (
 // canaries or sit flush against guard pages.
 
 func init() {
-	SelfTests = append(SelfTests, modes.SelfTest)
+	selfTests("C03", sm4m.SelfTest, modes.SelfTest)
 	register(&Prop{
 		ID:        "C03",
 		Level:     "exploration",
